@@ -1,25 +1,16 @@
 (* Proofs/PatternLit.v -- C10: what the visitor makes of literal tokens. *)
 From Coq Require Import NArith ZArith List String Bool Lia.
-From V Require Import Model.PatternSyntax Proofs.PatternNumbers.
+From V Require Import Model.PatternSyntax Spec.PatternSpec Proofs.PatternR Proofs.PatternNumbers.
 Import ListNotations.
 Open Scope N_scope.
 
 (* ------------------------------------------------------------------ *)
 (** * Literals *)
 
-Definition sv_lit (t : token) : aconst :=
-  match visit_terminal t with Ok (VConst c) => c | _ => CInt 0 end.
 
-(* what the visitor needs of a literal beyond its lexical class:
-   a timestamp Python's datetime can represent (findings
-   C10-timestamp-unrepresentable; unreal dates are not valid patterns),
-   a non-empty hex literal (C10-empty-hex-valueerror) *)
-Definition lit_sem (t : token) : bool :=
-  match tk t with
-  | KTimestamp => match py_strptime (slice_2_m1 (tx t)) with Some _ => true | None => false end
-  | KHex => match prefixed_body 104 (tx t) with Some b => negb (is_nil b) | None => false end
-  | _ => true
-  end.
+(* what the visitor needs of a literal beyond its lexical class: a timestamp
+   Python's datetime can represent (finding C10-timestamp-unrepresentable;
+   unreal dates are not valid patterns) *)
 
 Lemma last_is_snoc : forall (l : ustring) c, last_is (l ++ [c]) c = true.
 Proof. intros l c. unfold last_is. rewrite last_last. apply N.eqb_refl. Qed.
@@ -44,7 +35,7 @@ Proof. intros body. unfold slice_1_m1. cbn [tl]. apply removelast_last. Qed.
 Lemma string_tok_visit : forall t, tk t = KString -> string_ok (tx t) = true ->
   visit_terminal t = Ok (VConst (CString (slice_1_m1 (tx t)) false)).
 Proof.
-  intros [k s] Hk Hs. cbn in Hk, Hs |- *. subst k. unfold visit_terminal. cbn [tk tx].
+  intros [k s] Hk Hs. cbn in Hk, Hs |- *. subst k. unfold PatternSyntax.visit_terminal. cbn [tk tx].
   destruct (string_ok_shape s Hs) as [body [E _]]. subst s.
   change (starts_with_quote (c_quote :: body ++ [c_quote])) with true.
   change (c_quote :: body ++ [c_quote]) with ((c_quote :: body) ++ [c_quote]) at 1.
@@ -76,13 +67,13 @@ Proof.
   { unfold kind_in in Hk. apply andb_true_iff in Hk. destruct Hk as [Hk Hok].
     destruct t as [k s]. unfold token_ok in Hok. unfold lit_sem in Hs. cbn [tk tx] in *.
     destruct k; cbn in Hk; try discriminate;
-      try (unfold visit_terminal; cbn [tk tx]; match goal with |- context [starts_with_quote] => fail 1 | _ => idtac end).
+      try (unfold PatternSyntax.visit_terminal; cbn [tk tx]; match goal with |- context [starts_with_quote] => fail 1 | _ => idtac end).
     - destruct (py_int_intneg s Hok) as [z Hz]. rewrite Hz. eexists; reflexivity.
     - destruct (py_int_intpos s Hok) as [z Hz]. rewrite Hz. eexists; reflexivity.
     - destruct (py_float_floatneg s Hok) as [f Hf]. rewrite Hf. eexists; reflexivity.
     - destruct (py_float_floatpos s Hok) as [f Hf]. rewrite Hf. eexists; reflexivity.
-    - unfold hex_ok in Hok. unfold mk_hex_from_tree.
-      destruct (prefixed_body 104 s) as [b|]; [|discriminate]. rewrite Hs, Hok. eexists; reflexivity.
+    - unfold hex_ok in Hok. rewrite mk_hex_rep.
+      destruct (prefixed_body 104 s) as [b|]; [|discriminate]. rewrite Hok. eexists; reflexivity.
     - unfold binary_ok in Hok. unfold mk_binary_from_tree.
       destruct (prefixed_body 98 s) as [b|]; [|discriminate]. rewrite Hok. eexists; reflexivity.
     - rewrite (string_tok_visit (Tok KString s) eq_refl Hok). eexists; reflexivity.
